@@ -99,3 +99,31 @@ Example chan_end_run_ok :
                               LK CChanEnd; LKLoop false; LKLoop false; LK CWatch; LK CRemove; LK CPublish] = Some s /\
             k_done (r_k s) = Some ByCtx /\ k_sig (r_k s) = true /\ k_tab (r_k s) = false /\ k_err (r_k s) = false /\ q_s s = [].
 Proof. eexists. vm_compute. repeat split. Qed.
+
+(* ---- C02: headers are available no later than the first response message ---- *)
+Definition P_k_hdrs (k : ck) : bool := implb (k_gotmsg k) (k_hdrs k) && implb (k_sig k) (k_hdrs k).
+Lemma kP_hdrs : forall k, kinv k = true -> P_k_hdrs k = true.
+Proof. apply kinv_implies. vm_compute. reflexivity. Qed.
+(* in every interleaving: once a response message frame has been accepted for the caller, the headers have
+   been recorded (Header() returns at once, the grpc.Header targets are filled) - because the server emits
+   headers before its first message (rpc_server_frames_conform), the carrier is FIFO, and the loop takes the
+   headers while the stream is still in its table; and they are published at the latest with the result *)
+Theorem rpc_headers_no_later_than_first_message strict ls s :
+  rrun strict r_init ls = Some s ->
+  (k_gotmsg (r_k s) = true -> k_hdrs (r_k s) = true) /\ (k_sig (r_k s) = true -> k_hdrs (r_k s) = true).
+Proof.
+  intros Hrun. destruct (rpc_run_inv _ _ _ Hrun) as [Hk _ _ _ _ _ _].
+  pose proof (kP_hdrs _ Hk) as H. unfold P_k_hdrs in H. apply andb_true_iff in H. destruct H as [H1 H2].
+  split; intros E; rewrite E in *; cbn in *; assumption.
+Qed.
+(* what the client's loop takes for the id is always a conforming server emission sequence *)
+Theorem rpc_client_is_handed_conforming_frames strict ls s :
+  rrun strict r_init ls = Some s -> exists d, h_s s = d ++ q_s s /\ gs_run d <> GsBad.
+Proof.
+  intros Hrun. pose proof (rpc_run_inv _ _ _ Hrun) as I. destruct I as [_ _ _ _ _ _ (d & Hd1 & Hd2)].
+  exists d. split; [exact Hd1|]. apply (gs_prefix_ok d (q_s s)). rewrite <- Hd1. exact (rpc_server_frames_conform _ _ _ Hrun).
+Qed.
+Example headers_run_ok :
+  exists s, rrun true r_init [LK CNew; LVLoop LNormal; LV HSend; LKLoop false; LKLoop false] = Some s /\
+            k_gotmsg (r_k s) = true /\ k_hdrs (r_k s) = true /\ k_gin (r_k s) = GsHdr.
+Proof. eexists. vm_compute. repeat split. Qed.
